@@ -93,7 +93,15 @@ class PathEnumerator:
         self._inline_depth = 0
         self._inline_stack: List[str] = []
         self.inline_private = inline_private        # statement-level calls of private helpers are run in place
+        from .normalize import Normalizer
+        nz = getattr(ev.model, "_normalizer", None)
+        if nz is None:
+            nz = Normalizer(ev.model)
+            ev.model._normalizer = nz
+        self.norm = nz
         self.no_inline = set(no_inline or ())
+        self.split_ite = True                       # a conditional expression assigned / returned is read as the if-statement it abbreviates
+        self.unroll_literal_loops = True            # ``for x in (a, b, c)`` over a literal is read as the straight-line code it abbreviates
 
     def function_paths(self, fn: FunctionInfo, self_cls=None, args: Optional[Dict[str, Term]] = None) -> List[Path]:
         env: Dict[str, Term] = {}
@@ -114,7 +122,7 @@ class PathEnumerator:
             env[fn.node.args.vararg.arg] = ("varargs", fn.node.args.vararg.arg)
         frame = Frame(fn, fn.module, env, self_cls or fn.cls, 0)
         start = Path(TRUE, [], env)
-        return self.block(fn.body, [start], frame)
+        return self.block(self.norm.body(fn, fn.node) if self.inline_private else fn.body, [start], frame)
 
     # ------------------------------------------------------------------------------------------
     def feasible(self, cond: Term) -> bool:
@@ -181,6 +189,15 @@ class PathEnumerator:
                 raise Unsupported("yield expression in assignment")
             v = ev.expr(st.value, f)
             targets = st.targets if isinstance(st, ast.Assign) else [st.target]
+            if v[0] == "ite" and self.split_ite and len(targets) == 1 and isinstance(targets[0], ast.Name) and isinstance(st.value, ast.IfExp):
+                # ``x = a if c else b``  is  ``if c: x = a`` / ``else: x = b``
+                outs = []
+                for c, val in ((v[1], v[2]), (t_not(v[1]), v[3])):
+                    q = p.fork(c)
+                    if self.feasible(q.cond):
+                        self._assign(targets[0], val, q, self._frame(fr, q), st)
+                        outs.append(q)
+                return outs
             for tg in targets:
                 self._assign(tg, v, p, f, st)
             if isinstance(st, ast.AnnAssign) and isinstance(st.target, ast.Name) and v[0] in ("sym", "attr", "call", "sub"):
@@ -204,7 +221,19 @@ class PathEnumerator:
                                   extra=("aug", type(st.op).__name__)))
             return [p]
         if isinstance(st, ast.Return):
-            p.value = ev.expr(st.value, f) if st.value is not None else NONE
+            v = ev.expr(st.value, f) if st.value is not None else NONE
+            if v[0] == "ite" and self.split_ite and isinstance(st.value, ast.IfExp):
+                outs = []
+                for c, val in ((v[1], v[2]), (t_not(v[1]), v[3])):
+                    q = p.fork(c)
+                    if self.feasible(q.cond):
+                        q.value, q.exit, q.exit_node = val, "return", st
+                        outs.append(q)
+                return outs
+            if st.value is not None and isinstance(st.value, ast.Call) and v[0] == "call":
+                # ``return f(x)`` also *does* f(x)
+                p.events.append(Event("effect", st, v))
+            p.value = v
             p.exit, p.exit_node = "return", st
             return [p]
         if isinstance(st, ast.Raise):
@@ -385,7 +414,7 @@ class PathEnumerator:
                 body_frame = Frame(fr.fn, fr.module, inner_env, fr.self_cls, fr.depth)
             else:
                 body_frame = Frame(info, info.module, inner_env, self_cls or info.cls, fr.depth)
-            outs = self.block(d.body, [q0], body_frame)
+            outs = self.block(self.norm.body(info if info is not None else fr.fn, d), [q0], body_frame)
         finally:
             self._inline_depth -= 1
             if info is not None:
@@ -445,6 +474,26 @@ class PathEnumerator:
             return
         raise Unsupported(f"assignment target {ast.unparse(tg)}")
 
+    def _unrolled(self, st: ast.For, p: Path, fr: Frame) -> List[Path]:
+        live, done = [p], []
+        for elt in st.iter.elts:
+            nxt: List[Path] = []
+            for q in live:
+                f = self._frame(fr, q)
+                v = self.ev.expr(elt, f)
+                self._assign(st.target, v, q, f, st)
+                for r in self.block(st.body, [q], fr):
+                    if r.exit in ("fall", "continue"):
+                        r.exit, r.exit_node = "fall", None
+                        nxt.append(r)
+                    elif r.exit == "break":
+                        r.exit, r.exit_node = "fall", None
+                        done.append(("brk", r))
+                    else:
+                        done.append(("out", r))
+            live = nxt
+        return [r for _, r in done] + live
+
     def _loop(self, st, p: Path, fr: Frame) -> List[Path]:
         ev = self.ev
         f = self._frame(fr, p)
@@ -455,6 +504,9 @@ class PathEnumerator:
             if n in body_env:
                 body_env[n] = ("loopvar", n, st.lineno)
         it: Optional[Term] = None
+        if isinstance(st, ast.For) and self.unroll_literal_loops and isinstance(st.iter, (ast.Tuple, ast.List)) and 0 < len(st.iter.elts) <= 8 \
+                and not any(isinstance(x, ast.Starred) for x in st.iter.elts) and not st.orelse:
+            return self._unrolled(st, p, fr)
         if isinstance(st, ast.For):
             it = ev.expr(st.iter, f)
             bound = ("bound", "for", st.lineno, show(it))
